@@ -839,13 +839,15 @@ pub fn generate(args: &Args, rng: &mut Rng, out: &mut Out, hist: &mut Hist) -> u
                 &orc,
             );
             cases += 1;
-            // every synthetic file is a file like any other: its own tiling goes through the lexer model
+            // every file of the manager — entry, included, `<define>`, `<scratch space>` — is a file like any other:
+            // its own tiling goes through the single-file oracle and the lexer model
             for (n, c, b) in &mfiles {
-                if (n == "<scratch space>" || n == "<define>") && seen_files.insert(c.clone()) && seen_files.len() < 4000 {
-                    let fl = Flags { trail: n == "<scratch space>", inc: false, base: (*b).min(9) };
+                if seen_files.insert(c.clone()) && seen_files.len() < 6000 {
+                    let synthetic = n == "<scratch space>" || n == "<define>";
+                    let fl = Flags { trail: n != "<define>", inc: false, base: (*b).min(9) };
                     emit(c, &fl, out, hist);
                     cases += 1;
-                    hist.add("pp.synthetic_file_lexed");
+                    hist.add(if synthetic { "pp.synthetic_file_lexed" } else { "pp.source_file_lexed" });
                 }
             }
         }
